@@ -11,8 +11,9 @@ One body per function, with the flag threaded down to `checkForZeroScaleInRow`; 
 * the only exception kind is `std::domain_error` (documented in the header comment);
 * `checkForZeroScaleInRow` fails exactly on the `>=` guard `abs (scl) < 1 && abs (row[i]) >= max * abs (scl)`.
 
-`removeScaling` / `sansScaling` (2-D) are not instantiable at `T = Sym` (see `harness/sym/ops_c07.h`) and all 3-D versions
-have more than 5,000 paths: those pairs are decided by correspondence (harness `c07_pairs`).
+`removeScaling` / `sansScaling` (2-D, 1,656 paths each; `sin` / `cos` / `atan2` are parameters) are extracted too — these are the
+two functions of the family that had a genuine defect (DESIGN §7).  All 3-D versions have more than 5,000 paths: those pairs are
+decided by correspondence (harness `c07_pairs`, with every `checkForZeroScaleInRow` call site reached).
 -/
 set_option linter.unusedSectionVars false
 set_option linter.unusedVariables false
@@ -133,6 +134,36 @@ theorem Algo_sansScalingAndShear2_pair (tmin tmax : α) (sqrt : α → α) (m : 
   constructor
   · flag_tac [Gen.C07.Algo.sansScalingAndShear2T, Gen.C07.Algo.sansScalingAndShear2F, M33_eta]
   · flag_tac [Gen.C07.Algo.sansScalingAndShear2T]
+
+/-- `removeScaling (m, true)` (2-D) against `removeScaling (m, false)`: returns ⇒ the same flag `true` and the same rebuilt matrix
+(translate · rotate · shear, with the same `sin` / `cos` / `atan2` applied to the same arguments); throws ⇔ flag `false` -/
+theorem Algo_removeScaling2_pair (tmin tmax : α) (sqrt sin cos : α → α) (atan2 : α → α → α) (m : M33 α) :
+    okOpt (Gen.C07.Algo.removeScaling2T tmin tmax sqrt sin cos atan2 m) = flagOpt (Gen.C07.Algo.removeScaling2F tmin tmax sqrt sin cos atan2 m) ∧
+    errIs Exc.domainError (Gen.C07.Algo.removeScaling2T tmin tmax sqrt sin cos atan2 m) = true := by
+  constructor <;> flag_tac [Gen.C07.Algo.removeScaling2T, Gen.C07.Algo.removeScaling2F]
+
+/-- `sansScaling (m, true)` (2-D) returns ⇒ `sansScaling (m, false)` returns the same matrix; it throws (only `std::domain_error`)
+⇒ the unchecked form reports failure by returning `m` itself -/
+theorem Algo_sansScaling2_pair (tmin tmax : α) (sqrt sin cos : α → α) (atan2 : α → α → α) (m : M33 α) :
+    unexc m (Gen.C07.Algo.sansScaling2T tmin tmax sqrt sin cos atan2 m) = Gen.C07.Algo.sansScaling2F tmin tmax sqrt sin cos atan2 m ∧
+    errIs Exc.domainError (Gen.C07.Algo.sansScaling2T tmin tmax sqrt sin cos atan2 m) = true := by
+  constructor
+  · flag_tac [Gen.C07.Algo.sansScaling2T, Gen.C07.Algo.sansScaling2F, M33_eta]
+  · flag_tac [Gen.C07.Algo.sansScaling2T]
+
+/-- the two members of each pair fail on the SAME inputs as `extractSHRT` (they only forward `exc`): flag / throw of
+`removeScaling` = flag / throw of `extractSHRT` -/
+theorem Algo_removeScaling2_fails_iff_extractSHRT2 (tmin tmax : α) (sqrt sin cos : α → α) (atan2 : α → α → α) (m : M33 α) :
+    (Gen.C07.Algo.removeScaling2F tmin tmax sqrt sin cos atan2 m).1 = (Gen.C07.Algo.extractSHRT2F tmin tmax sqrt atan2 m).1 := by
+  simp only [Gen.C07.Algo.removeScaling2F, Gen.C07.Algo.extractSHRT2F, apply_ite Prod.fst]
+
+/-- non-vacuity: the zero matrix makes the checked form throw and the unchecked one return `false` / the input itself -/
+example : Gen.C07.Algo.removeScaling2T (1 / 1024 : ℚ) 1048576 (fun x => x) (fun x => x) (fun x => x) (fun x _ => x) ⟨0, 0, 0, 0, 0, 0, 0, 0, 1⟩ = .error Exc.domainError ∧
+    (Gen.C07.Algo.removeScaling2F (1 / 1024 : ℚ) 1048576 (fun x => x) (fun x => x) (fun x => x) (fun x _ => x) ⟨0, 0, 0, 0, 0, 0, 0, 0, 1⟩).1 = false := by
+  constructor <;> simp [Gen.C07.Algo.removeScaling2T, Gen.C07.Algo.removeScaling2F, Gen.V2.length, sabs]
+example : Gen.C07.Algo.sansScaling2T (1 / 1024 : ℚ) 1048576 (fun x => x) (fun x => x) (fun x => x) (fun x _ => x) ⟨0, 0, 0, 0, 0, 0, 0, 0, 1⟩ = .error Exc.domainError ∧
+    Gen.C07.Algo.sansScaling2F (1 / 1024 : ℚ) 1048576 (fun x => x) (fun x => x) (fun x => x) (fun x _ => x) ⟨0, 0, 0, 0, 0, 0, 0, 0, 1⟩ = ⟨0, 0, 0, 0, 0, 0, 0, 0, 1⟩ := by
+  constructor <;> simp [Gen.C07.Algo.sansScaling2T, Gen.C07.Algo.sansScaling2F, Gen.V2.length, sabs]
 
 /-- reading of a `…_pair` theorem: returns ⇒ identical results with flag `true`; throws ⇔ the flag is `false` -/
 theorem Algo_pair_reading {β : Type} {e : Except Exc (Bool × β)} {r : Bool × β} (h : okOpt e = flagOpt r ∧ errIs Exc.domainError e = true) :
